@@ -410,6 +410,7 @@ def rule_link_order(ctx):
     """R2: the unified analyzer's packet parser interprets a frame like the protocol analyzers' parsers do"""
     from . import _endpoints as E
     E.link_layer_order(ctx, ctx.program, "R2", ("huginn_net_tcp", "huginn_net_http", "huginn_net_tls", "huginn_net"))
+    E.ip_from_same_slice(ctx, ctx.program, "R2", ("huginn_net_tcp", "huginn_net_http", "huginn_net_tls", "huginn_net"))
 
 
 def rule_table_routing(ctx):
